@@ -28,6 +28,7 @@ type m3GenOpts struct {
 	collide    bool
 	smallQ     bool
 	bursts     bool
+	lateAlloc  int // percent of programs in which tasks allocate histograms of their own, concurrently, under one tag set
 }
 
 func genName(g *Gen, n int, salt int) string {
@@ -212,6 +213,34 @@ func genM3(g *Gen, p *Program, o m3GenOpts) {
 		}
 		p.Tasks = append(p.Tasks, ops)
 	}
+	if o.lateAlloc > 0 && g.Bool(o.lateAlloc) {
+		// Allocation is part of "any interleaving": two tasks allocate a histogram
+		// each at the same time, under the same tag set (so they meet in the
+		// reporter's tag cache and size calculator) but with bucket strings of very
+		// different length, then report bursts of large values on their buckets.
+		shared := map[string]string{"a": "1", "b": "2"}
+		specs := []*BucketSpec{{Dur: true, Durs: []int64{1e6, 1e9}}, {Bits: []uint64{f64bits(1), f64bits(1e15)}}}
+		for t := 0; t < 2 && t < len(p.Tasks)+1; t++ {
+			hm, bm := 500+t, 510+t
+			pre := []Op{{K: "m3ah", M: hm, Name: fmt.Sprintf("lh%d", t), Tags: copyTags(shared), B: specs[t]}}
+			bop := Op{K: "m3bucket", S: hm, M: bm}
+			if specs[t].Dur {
+				bop.I = 1e9
+			} else {
+				bop.F = f64bits(1e15)
+			}
+			pre = append(pre, bop)
+			for k := g.Range(4, 24); k > 0; k-- {
+				uniq++
+				pre = append(pre, Op{K: "m3samples", M: bm, I: 9223372036854775807 - uniq})
+			}
+			if t < len(p.Tasks) {
+				p.Tasks[t] = append(pre, p.Tasks[t]...)
+			} else {
+				p.Tasks = append(p.Tasks, pre)
+			}
+		}
+	}
 	for i := 0; i < o.closers; i++ {
 		if g.Bool(60) {
 			var ops []Op
@@ -237,7 +266,7 @@ func genC12(g *Gen, tier string) *Program {
 	if tier == "thorough" {
 		r = [2]int{6, 40}
 	}
-	genM3(g, p, m3GenOpts{nameLen: []int{1, 3, 8, 20, 60, 200, 600}, maxTags: 8, tasks: [2]int{1, 3}, reports: r, bursts: true})
+	genM3(g, p, m3GenOpts{nameLen: []int{1, 3, 8, 20, 60, 200, 600}, maxTags: 8, tasks: [2]int{1, 3}, reports: r, bursts: true, lateAlloc: 25})
 	if pct := map[string]int{"quick": 3, "thorough": 8}[tier]; g.Bool(pct) {
 		// the top of the range: packets as large as a datagram of this transport can
 		// be. One more task fills two of them with long-named counters; a packet
@@ -294,7 +323,20 @@ func genC13(g *Gen, tier string) *Program {
 	if tier == "thorough" {
 		r = [2]int{4, 24}
 	}
-	genM3(g, p, m3GenOpts{nameLen: []int{3, 8, 20}, maxTags: pick(g, 4, 8, 12, 18), tasks: [2]int{1, 3}, reports: r, collide: true, bursts: g.Bool(30)})
+	genM3(g, p, m3GenOpts{nameLen: []int{3, 8, 20}, maxTags: pick(g, 4, 8, 12, 18), tasks: [2]int{1, 3}, reports: r, collide: true, bursts: g.Bool(30), lateAlloc: 15})
+	if pct := map[string]int{"quick": 3, "thorough": 8}[tier]; g.Bool(pct) {
+		// packets as large as this transport's datagrams get, filled with
+		// histogram bucket samples (the metrics with the longest tags): a batch
+		// that comes out larger than reckoned is refused by the transport and lost
+		p.Cfg.M3.MaxPacket = pick(g, int32(60000), int32(64000))
+		p.Prelude = append(p.Prelude, Op{K: "m3ah", M: 1000, Name: "bigh", Tags: map[string]string{"a": "1"}, B: &BucketSpec{Bits: []uint64{f64bits(1), f64bits(1e15)}}},
+			Op{K: "m3bucket", S: 1000, M: 1001, F: f64bits(1e15)})
+		var ops []Op
+		for i := 0; i < 900; i++ {
+			ops = append(ops, Op{K: "m3samples", M: 1001, I: int64(7000000 + i)})
+		}
+		p.Tasks = append(p.Tasks, ops)
+	}
 	if g.Bool(30) {
 		p.Cfg.Faults.SendFail = []int{g.Range(1, 3)}
 		if p.Cfg.M3.Dests > 1 && g.Bool(60) {
@@ -310,7 +352,7 @@ func genC14(g *Gen, tier string) *Program {
 	if tier == "thorough" {
 		r = [2]int{3, 16}
 	}
-	genM3(g, p, m3GenOpts{nameLen: []int{3, 8}, maxTags: 2, tasks: [2]int{1, 3}, reports: r, closers: 3, afterClose: true, smallQ: true})
+	genM3(g, p, m3GenOpts{nameLen: []int{3, 8}, maxTags: 2, tasks: [2]int{1, 3}, reports: r, closers: 3, afterClose: true, smallQ: true, lateAlloc: 25})
 	switch g.Intn(4) {
 	case 0:
 		p.Cfg.Faults.FailFrom = g.Range(1, 3)
